@@ -374,6 +374,15 @@ func sequential(c *harness.Ctx, i int) {
 			shape = "chain+repair"
 		}
 	}
+	// the CLI wraps whatever it built into a de-duplication queue and a swap store: transparent for sequential use
+	switch rng.Intn(4) {
+	case 0:
+		real = desync.NewDedupQueue(real)
+		shape += "+dedup"
+	case 1:
+		real = desync.NewSwapStore(desync.NewDedupQueue(real))
+		shape += "+dedup+swap"
+	}
 	nops := 3 + rng.Intn(25)
 	c.Info("sequential shape=%s ids=%d ops=%d plans=%v", shape, len(w.ids), nops, plans)
 	c.LogInfo()
@@ -401,7 +410,7 @@ func sequential(c *harness.Ctx, i int) {
 			ch, err := real.GetChunk(w.ids[id])
 			got = classify(ch, err, w.data[id])
 			want = model.get(id)
-			if want == "invalid" && shape == "router" {
+			if want == "invalid" && strings.HasPrefix(shape, "router") {
 				want = "error"
 			}
 			hist = append(hist, fmt.Sprintf("get(%d)=%s", id, got))
